@@ -646,6 +646,65 @@ def fin_ack_lost_cases():
     return out
 
 
+def udp_boundary_cases():
+    """Deterministic family (always emitted, C16): UDP payload sizes at the MTU boundary of the destination's path
+    and at / beyond the 16-bit boundary (65507..65537, 70000, 131072+k with k inside the limit), through every send
+    path (send_to / try_send_to by parity, connected send / try_send by parity), loopback and cross-host, v4 and
+    v6, default MTUs and a small loopback MTU."""
+    out = []
+    for (v6, lo_mtu, mtu) in [(False, 65536, 1500), (True, 65536, 1500), (True, 100, 1500), (False, 300, 600)]:
+        cfg = full_cfg({"v6": v6, "loopback_mtu": lo_mtu, "mtu": mtu})
+        sc = Script()
+        u, rl, rx = sc.slot(), sc.slot(), sc.slot()
+        sc.add(["udp_bind", u, 0, 0, 5000], ["udp_bind", rl, 0, 1, 6000], ["udp_bind", rx, 1, 3, 6000])
+        for dst in (1, 3):
+            lim = mss_of(cfg, dst, 8)
+            sizes = sorted({max(0, lim - 1), lim, lim + 1, lim + 2, 65507, 65508, 65535, 65536, 65537, 70000,
+                            131072 + min(lim, 5), 131072 + min(lim, 5) + 1, 65536 + lim, 65536 + lim + 1})
+            for n in sizes:
+                sc.add(["udp_send", u, n, dst, 6000], E, ["flush"])
+            sc.add(["udp_connect", u, dst, 6000])
+            for n in sizes:
+                sc.add(["udp_send_c", u, n], E, ["flush"])
+            sc.add(["netstat", 0], ["netstat", 1])
+        out.append({"cfg": cfg, "script": sc.s, "flavour": "udp_boundary"})
+    return out
+
+
+def hs_retx_cases():
+    """Deterministic family (always emitted, C13): the handshake completes on a RETRANSMITTED segment - exactly the
+    first SYN, or exactly the first SYN-ACK, is lost; then data both ways, both sides close, more rounds than the
+    retransmit budget, table probes and a re-bind.  connect Ok => accept hands the connection out once; afterwards
+    both tables are empty."""
+    out = []
+    for (th, mx, v6, lost, cdata) in [(2, 3, False, "syn", False), (2, 3, False, "synack", False), (3, 5, True, "syn", True),
+                                      (1, 3, False, "synack", True), (3, 5, False, "syn", False)]:
+        cfg = full_cfg({"retx_threshold": th, "retx_max": mx, "backlog": 4, "send_cap": 64, "recv_cap": 64, "v6": v6})
+        sc = Script()
+        ls, cs, as_ = sc.slot(), sc.slot(), sc.slot()
+        sc.add(["listen", ls, 1, 3, 80], ["connect", cs, 0, 3, 80], E)
+        if lost == "syn":
+            sc.add(["drop", 0])
+        else:
+            sc.add(D(0), E, ["drop", 0])
+        for _ in range(2 * th + 4):
+            sc.add(E, ["flush"], ["poll_connect", cs], ["accept", ls, as_])
+        if cdata:
+            sc.add(["write", cs, [1, 2, 3]], E, ["flush"], ["read", as_, 8], E, ["flush"], E, ["flush"], ["read", as_, 8])
+        sc.add(["write", as_, [4, 5]], E, ["flush"], ["read", cs, 8], E, ["flush"], E, ["flush"], ["read", cs, 8])
+        # both applications drop their streams (client first), then the listener goes
+        sc.add(["close", cs], E, ["flush"], ["read", as_, 8], E, ["flush"], ["close", as_], E, ["flush"], ["close", ls])
+        for _ in range(th * (mx + 1) + 4):
+            sc.add(E, ["flush"])
+        sc.add(["counts", 0], ["counts", 1], ["rows", 0], ["rows", 1])
+        fin = sc.slot()
+        sc.add(["listen", fin, 1, 3, 80], ["counts", 1])
+        out.append({"cfg": cfg, "script": sc.s, "flavour": "hs_retx",
+                    "plan": {"closed_all": True, "settled": True, "port": 80, "final_listen": fin,
+                             "expect_accept": {"ls": ls, "cs": cs, "drops": 1}}})
+    return out
+
+
 def wrap_cases(rng=None):
     """Sequence numbers crossing 2^32 (verif hook set_isn): ISN = 2^32 - k on both hosts, transfer larger than k in both
     directions, both roles, with and without one lost data segment; the model computes on unbounded naturals and the
